@@ -67,11 +67,11 @@ func Specs() map[string]*Spec {
 		QuickWall: 30 * time.Minute, ThoroughWall: 20 * time.Minute, BlockWall: 15 * time.Minute,
 		Nontrivial: "history",
 		Rule: "sequences of up to 200 parse calls (parse.SoyFile, parse.Expr, soy.ParseGlobals, Bundle.Compile) run inside one simulated process; after every call returns the scheduler runs all remaining tasks to quiescence and any task " +
-			"that is alive and disabled for ever (blocked in a send nobody will receive) is a leak. Exhaustive part: every byte-prefix of every corpus item, in sequences of 200; seeded part: sequences mixing corpus prefixes, mutants, " +
-			"inputs with trailing tokens after a complete expression, errors and trailing tokens inside quoted attribute expressions, runtime-error paths of the parser, globals files and multi-file compiles. " +
+			"that is alive and disabled for ever (blocked in a send nobody will receive) is a leak; the tasks a call started may run at most 500 more simulated steps after it returned (6 on the pinned tree), more is reported as lingering; tasks still asleep or polling one simulated hour later count as left behind. Exhaustive part: every byte-prefix of every corpus item, in sequences of 200; seeded part: sequences mixing corpus prefixes, mutants, " +
+			"inputs with trailing tokens after a complete expression, errors and trailing tokens inside quoted attribute expressions, runtime-error paths of the parser, globals files, multi-file compiles, large files with an error near their start, files with a prelude (byte-order mark, shebang, ...). " +
 			"A history is distinct by the hash of its call list; every history spawns at least one scanner task.",
 		Assumptions: []string{
-			"a leak is a task disabled for ever in the simulator's channel model; blocking primitives other than channels and sync.Mutex/RWMutex/Once are not modelled",
+			"a leak is a task disabled for ever in the simulator's models of channels, select, mutexes, WaitGroup, Cond, timers and tickers; context deadlines and signal.Notify are not modelled (a tree that uses them makes the check exit 2)",
 			"sequences cut short by a C05 condition (budget, deadlock) are counted and left to C05",
 		},
 		Components: map[string][]string{"real": realSoy, "stub": {}, "replaced": {"Go scheduler's goroutine choice", "channel blocking (enabledness model)"}},
@@ -123,9 +123,9 @@ func init() {
 			QuickWall: 30 * time.Minute, ThoroughWall: 20 * time.Minute, BlockWall: 15 * time.Minute,
 			Nontrivial: "history",
 			Rule: "seeded histories of 2..8 (quick) / 2..40 (thorough) operations over ONE compiled generated bundle, one set of data maps, $ij maps and message catalogues, all reused for the whole history. Operations: render; render through a reused Renderer value; " +
-				"render into a writer failing at write k; render in which the vfail function/directive panics at its n-th invocation (error, string, runtime.Error or struct value); render with ill-typed data; soyjs.Write (ES5/ES6, with/without catalogue); Generator.WriteFile; " +
+				"render into a writer failing at write k; render in which the vfail function/directive panics at its n-th invocation (error, string, runtime.Error or struct value); render with ill-typed data; Tofu.Render of the data map, of hand-built data with Go nils inside, and of a Go struct by pointer which the caller edits in place between two renders; soyjs.Write (ES5/ES6, with/without catalogue); Generator.WriteFile; " +
 				"parse.Expr+EvalExpr; re-compiling the same soy.Bundle. Installed registries: vfail (function and directive), vq, vbang, and vpush, a custom function that appends to its list argument the ordinary Go way. Swarm configuration per history: 0, 1 or 2 obligatory print directives, catalogue kind. Reference model: the same render as the first operation on a freshly compiled bundle with pristine data (memoised). " +
-				"Invariants after every operation: un-faulted renders are byte-identical to the model and agree on error presence; faulted renders wrote a prefix of the model output; the structural digest (reflection over exported and unexported fields, pointer-identity aware) of data maps, $ij, catalogues, " +
+				"Invariants after every operation: un-faulted renders are byte-identical to the model and agree on error presence; faulted renders wrote a prefix of the model output; a failed write is reported by the render; no panic escapes and no operation hangs unless the model does too; the structural digest (reflection over exported and unexported fields, pointer-identity aware) of data maps, $ij, catalogues, " +
 				"the whole template.Registry with every AST node, the soy.Bundle and the process-wide registries is unchanged. The same histories run on the plain build and on the instrumented build (under the step clock). Process clause: selected histories are executed again as the first thing a fresh child process does, and every un-faulted render must agree with it (state kept in package-level variables outlives every bundle of a worker process, the fresh-compile model included). A history is distinct by the hash of (bundle skeleton, operation list).",
 			Assumptions: []string{
 				"error text is not compared (it embeds stack traces); only presence",
@@ -179,9 +179,9 @@ func init() {
 			Nontrivial: "interleaving", Recheck: 12,
 			Rule: "each run compiles a seeded generated bundle (set-up in the harness task, as a server does at start-up), then 2-6 client tasks each perform 1-4 operations on the SHARED Tofu, registry, data maps, $ij maps and message bundle (a stateless stub or the repository's own pomsg bundle loaded from generated PO text): render (same or different templates, with/without catalogue), " +
 				"Execute on one *Renderer object shared by the tasks, Tofu.Render with shared Go struct values (conversion through data.New), soyjs.Write (ES5/ES6), compilation of an independent bundle and parse.SoyFile (two fifths of them on a damaged file, so that scanner and parser take their error paths; " +
-				"every bundle is first handed the same application-wide globals map). A swarm theme per run may concentrate the operations on one kind. One task runs at a time; the next task is drawn from the run's seeded strategy (uniform random with quantum 1/3/10/50/500 yields, PCT with 1-3 priority change points, coarse run-to-completion in random order, round-robin q=1); a successful Lock/RLock is a scheduling point of its own; the speed of the simulated machine (ns per step, for code that reads the clock or arms timers) is drawn per run; " +
+				"every bundle is first handed the same application-wide globals map), renders of ill-typed variants of the data sets (they fail at run time, so the error paths run concurrently). An observer task reads every shared input while the clients run. The references (\"alone\") are computed after the concurrent part and every unit is a fresh process, so whatever soy fills lazily on first use is filled by concurrent tasks. A swarm theme per run may concentrate the operations on one kind. One task runs at a time; the next task is drawn from the run's seeded strategy (uniform random with quantum 1/3/10/50/500 yields, PCT with 1-3 priority change points, coarse run-to-completion in random order, round-robin q=1); a successful Lock/RLock is a scheduling point of its own; the speed of the simulated machine (ns per step, for code that reads the clock or arms timers) is drawn per run; " +
 				"task handoffs are hidden from ThreadSanitizer (runtime.RaceDisable around the baton channel operations, //go:norace simulator), so the serial, replayable execution is still judged concurrent. Swarm: 0-2 obligatory directives, soyhtml.Logger set or not, catalogue kind. " +
-				"Oracles: (1) any race-detector report; (2) every operation's bytes and error presence equal the same operation run alone on a fresh bundle; (3) no panic, deadlock or budget exhaustion. A run is distinct and non-trivial by its interleaving hash (sequence of (task, site) at switch points) combined with the bundle skeleton; every run has at least two client tasks.",
+				"Oracles: (1) any race-detector report; (2) every operation's bytes and error presence equal the same operation run alone on a fresh bundle; (3) no panic, no deadlock (of main or among the clients) and no budget exhaustion. A run is distinct and non-trivial by its interleaving hash (sequence of (task, site) at switch points) combined with the bundle skeleton; every run has at least two client tasks.",
 			Assumptions: []string{
 				"ThreadSanitizer judges the tasks concurrent because the only happens-before edges it sees are the program's own (goroutine creation by the caller, soy's channels, the harness's WaitGroup at the join)",
 				"the harness shares only what a server shares: the compiled bundle, read-only data/$ij maps, Go struct values, one globals map, a message bundle and (in the render-shared operation) a configured Renderer; per-operation writers and results are private",
@@ -292,7 +292,7 @@ func init() {
 			Rule: "seeded generated messages built from a vocabulary chosen for the placeholder naming pass: repeated expressions, distinct expressions with one base name ($x, $a.x, $b.x), base names that look like suffixed names ($x_1, $a.x_1, $x_2), expressions without a base name, " +
 				"global references, map literals inside placeholders, html tags (two different <a> tags, a tag named a_1), plurals with placeholders in several cases, meanings and descriptions. For every message: (a) the id, placeholder names and placeholder string under every single-site perturbation " +
 				"(rotations 1..4) of each reached range-over-map site of the naming pass and under 4 seeded all-site perturbations must equal the canonical observation; (b) compiled after 1..6 other bundles in the same process; (c) the plain build in fresh OS processes under native order; " +
-				"(d) the same message surrounded by other messages, in another template/namespace/file, with another description, twice in one template, and nested inside each of thirteen constructs (if / else / elseif, switch case / default, foreach body / ifempty, for, let and param content blocks, log, two deep mixes) -> same id and names; (e) changing the text, the meaning, adding a placeholder, adding a plural case -> a different id. " +
+				"(the vocabulary includes placeholders under print directives, commands with attributes inside the body, literal braces, nested plurals; no placeholder may be left without a name) (d) the same message surrounded by other messages, preceded by an impostor whose literal text is its placeholder string, between comments, in another template/namespace/file, with another description, twice in one template, and nested inside each of thirteen constructs (if / else / elseif, switch case / default, foreach body / ifempty, for, let and param content blocks, log, two deep mixes) -> same id and names; (e) changing the text, the meaning, adding a placeholder (also in the innermost of nested plurals), adding a plural case, putting a directive on one of two equal placeholders, or ending in another raw-text fragment of a different text -> a different id. " +
 				"A run is distinct by its (site, execution, decision) assignment combined with the message source, non-trivial if at least one decision is non-canonical.",
 			Assumptions: []string{
 				"decides the stability, independence and sensitivity clauses of C10 only: conformance of the id numbers to Google's fingerprint algorithm and of the names to the official naming rules is a pure function with an external reference and is NOT decided here (the repository's unit tests pin it on fixed vectors)",
